@@ -1,3 +1,4 @@
+import Sparrow.Proofs.GlueEquiv
 import Sparrow.Proofs.LegKernelEquiv
 import Sparrow.Proofs.BakeKernelEquiv
 import Sparrow.Proofs.KernelEquiv
@@ -113,3 +114,67 @@ theorem patch2receiver_hidden_zero (pt : (Nat → ℝ) → (Nat → Nat → ℝ)
   Sparrow.patch2receiver_hidden_zero pt P rec pp vis s0 s1 s2 s3 i hi hv
 
 end Sparrow.Props.C11.ReceiverLeg
+
+namespace Sparrow.Props.C11.Glue
+open Sparrow Sparrow.Generated.Glue Sparrow.Generated.Kernels Sparrow.Generated.BakeKernels Sparrow.Generated.LegKernels
+
+/-- **`_collect_energy_patches` as translated, receiver `i`, patch `p`, band `b`, bin `t`** -/
+theorem collectEnergyPatches_eq
+    (vis : (Nat → ℝ) → (Nat → Nat → ℝ) → (Nat → Nat → ℝ) → (Nat → Nat → Nat → ℝ) → Nat → Bool)
+    (pt : (Nat → ℝ) → (Nat → Nat → ℝ) → ℝ) (R P B S W D : Nat) (rpos : Nat → Nat → ℝ) (att : Nat → ℝ)
+    (pp : Nat → Nat → Nat → ℝ) (pc : Nat → Nat → ℝ) (etc : Nat → Nat → Nat → Nat → ℝ)
+    (wp : Nat → Nat → Nat → ℝ) (wn : Nat → Nat → ℝ) (dirs : Nat → Nat → Nat → ℝ) (wall : Nat → Nat)
+    (c dt : ℝ) (fx : Bool) (s0 s1 s2 s3 s4 s5 s6 s7 s8 s9 s10 s11 : Nat)
+    (j1 : Nat → Nat → Nat → ℝ) (j2 : Nat → Nat → Nat → ℝ) (j3 : Nat → Nat → Nat → Nat → ℝ) (j4 : Nat → Nat → Bool)
+    (i p b t : Nat) (hi : i < R) (hp : p < P) (hb : b < B) :
+    collectEnergyPatches vis pt R 3 rpos s0 att P s1 s2 pp P 3 pc s3 s4 s5 S etc s6 s7 s8 wp s9 s10 wn W D 3 dirs s11 wall
+        P B c dt fx j1 j2 j3 j4 i p b t =
+      glueRow vis pt (fun q => rpos i q) att pp pc etc wp wn dirs wall D S c dt fx p b t :=
+  Sparrow.collectEnergyPatches_eq vis pt R P B S W D rpos att pp pc etc wp wn dirs wall c dt fx s0 s1 s2 s3 s4 s5 s6 s7 s8 s9 s10 s11 j1 j2 j3 j4 i p b t hi hp hb
+
+/-- **Per-receiver** (C11): the rows of two calls agree whenever the two receiver positions agree — whatever the
+    other receivers are, how many there are, in which order they come, and whatever the `np.empty` buffers held. -/
+theorem collectEnergyPatches_receiver_local
+    (vis : (Nat → ℝ) → (Nat → Nat → ℝ) → (Nat → Nat → ℝ) → (Nat → Nat → Nat → ℝ) → Nat → Bool)
+    (pt : (Nat → ℝ) → (Nat → Nat → ℝ) → ℝ) (R R' P B S W D : Nat) (rpos rpos' : Nat → Nat → ℝ) (att : Nat → ℝ)
+    (pp : Nat → Nat → Nat → ℝ) (pc : Nat → Nat → ℝ) (etc : Nat → Nat → Nat → Nat → ℝ)
+    (wp : Nat → Nat → Nat → ℝ) (wn : Nat → Nat → ℝ) (dirs : Nat → Nat → Nat → ℝ) (wall : Nat → Nat)
+    (c dt : ℝ) (fx : Bool) (s0 s1 s2 s3 s4 s5 s6 s7 s8 s9 s10 s11 : Nat)
+    (j1 j1' : Nat → Nat → Nat → ℝ) (j2 j2' : Nat → Nat → Nat → ℝ) (j3 j3' : Nat → Nat → Nat → Nat → ℝ) (j4 j4' : Nat → Nat → Bool)
+    (i i' p b t : Nat) (hi : i < R) (hi' : i' < R') (hp : p < P) (hb : b < B) (hpos : ∀ q, rpos i q = rpos' i' q) :
+    collectEnergyPatches vis pt R 3 rpos s0 att P s1 s2 pp P 3 pc s3 s4 s5 S etc s6 s7 s8 wp s9 s10 wn W D 3 dirs s11 wall
+        P B c dt fx j1 j2 j3 j4 i p b t =
+    collectEnergyPatches vis pt R' 3 rpos' s0 att P s1 s2 pp P 3 pc s3 s4 s5 S etc s6 s7 s8 wp s9 s10 wn W D 3 dirs s11 wall
+        P B c dt fx j1' j2' j3' j4' i' p b t :=
+  Sparrow.collectEnergyPatches_receiver_local vis pt R R' P B S W D rpos rpos' att pp pc etc wp wn dirs wall c dt fx s0 s1 s2 s3 s4 s5 s6 s7 s8 s9 s10 s11 j1 j1' j2 j2' j3 j3' j4 j4' i i' p b t hi hi' hp hb hpos
+
+/-- **Geometric** (C11): a patch the receiver does not see contributes exactly nothing, in every band and bin. -/
+theorem collectEnergyPatches_hidden_zero
+    (vis : (Nat → ℝ) → (Nat → Nat → ℝ) → (Nat → Nat → ℝ) → (Nat → Nat → Nat → ℝ) → Nat → Bool)
+    (pt : (Nat → ℝ) → (Nat → Nat → ℝ) → ℝ) (R P B S W D : Nat) (rpos : Nat → Nat → ℝ) (att : Nat → ℝ)
+    (pp : Nat → Nat → Nat → ℝ) (pc : Nat → Nat → ℝ) (etc : Nat → Nat → Nat → Nat → ℝ)
+    (wp : Nat → Nat → Nat → ℝ) (wn : Nat → Nat → ℝ) (dirs : Nat → Nat → Nat → ℝ) (wall : Nat → Nat)
+    (c dt : ℝ) (fx : Bool) (s0 s1 s2 s3 s4 s5 s6 s7 s8 s9 s10 s11 : Nat)
+    (j1 : Nat → Nat → Nat → ℝ) (j2 : Nat → Nat → Nat → ℝ) (j3 : Nat → Nat → Nat → Nat → ℝ) (j4 : Nat → Nat → Bool)
+    (i p b t : Nat) (hi : i < R) (hp : p < P) (hb : b < B)
+    (hv : vis (fun q => rpos i q) pc wn wp p = false) :
+    collectEnergyPatches vis pt R 3 rpos s0 att P s1 s2 pp P 3 pc s3 s4 s5 S etc s6 s7 s8 wp s9 s10 wn W D 3 dirs s11 wall
+        P B c dt fx j1 j2 j3 j4 i p b t = 0 :=
+  Sparrow.collectEnergyPatches_hidden_zero vis pt R P B S W D rpos att pp pc etc wp wn dirs wall c dt fx s0 s1 s2 s3 s4 s5 s6 s7 s8 s9 s10 s11 j1 j2 j3 j4 i p b t hi hp hb hv
+
+/-- the response of a patch is linear in its stored histogram: scaling the stored state by `s` scales the row -/
+theorem collectEnergyPatches_scale
+    (vis : (Nat → ℝ) → (Nat → Nat → ℝ) → (Nat → Nat → ℝ) → (Nat → Nat → Nat → ℝ) → Nat → Bool)
+    (pt : (Nat → ℝ) → (Nat → Nat → ℝ) → ℝ) (R P B S W D : Nat) (rpos : Nat → Nat → ℝ) (att : Nat → ℝ)
+    (pp : Nat → Nat → Nat → ℝ) (pc : Nat → Nat → ℝ) (etc : Nat → Nat → Nat → Nat → ℝ)
+    (wp : Nat → Nat → Nat → ℝ) (wn : Nat → Nat → ℝ) (dirs : Nat → Nat → Nat → ℝ) (wall : Nat → Nat)
+    (c dt : ℝ) (fx : Bool) (s0 s1 s2 s3 s4 s5 s6 s7 s8 s9 s10 s11 : Nat)
+    (j1 : Nat → Nat → Nat → ℝ) (j2 : Nat → Nat → Nat → ℝ) (j3 : Nat → Nat → Nat → Nat → ℝ) (j4 : Nat → Nat → Bool)
+    (i p b t : Nat) (hi : i < R) (hp : p < P) (hb : b < B) (s : ℝ) :
+    collectEnergyPatches vis pt R 3 rpos s0 att P s1 s2 pp P 3 pc s3 s4 s5 S (fun k d b t => s * etc k d b t)
+        s6 s7 s8 wp s9 s10 wn W D 3 dirs s11 wall P B c dt fx j1 j2 j3 j4 i p b t =
+    s * collectEnergyPatches vis pt R 3 rpos s0 att P s1 s2 pp P 3 pc s3 s4 s5 S etc s6 s7 s8 wp s9 s10 wn W D 3 dirs s11 wall
+        P B c dt fx j1 j2 j3 j4 i p b t :=
+  Sparrow.collectEnergyPatches_scale vis pt R P B S W D rpos att pp pc etc wp wn dirs wall c dt fx s0 s1 s2 s3 s4 s5 s6 s7 s8 s9 s10 s11 j1 j2 j3 j4 i p b t hi hp hb s
+
+end Sparrow.Props.C11.Glue
